@@ -1,3 +1,255 @@
 package main
 
-func sutMain(args []string) {}
+import (
+	"bufio"
+	"bytes"
+	"encoding/json"
+	"fmt"
+	"net"
+	"os"
+	"runtime"
+	"runtime/pprof"
+	"strings"
+	"sync"
+	"time"
+
+	"github.com/samaritan-proxy/samaritan/host"
+	"github.com/samaritan-proxy/samaritan/logger"
+	"github.com/samaritan-proxy/samaritan/pb/config/service"
+	"github.com/samaritan-proxy/samaritan/proc"
+	sredis "github.com/samaritan-proxy/samaritan/proc/redis"
+	"github.com/samaritan-proxy/samaritan/proc/redis/hotkey"
+	_ "github.com/samaritan-proxy/samaritan/proc/tcp"
+	"github.com/samaritan-proxy/samaritan/stats"
+	"github.com/samaritan-proxy/samaritan/utils/vhook"
+)
+
+// The SUT host: a child process which creates processors through the public
+// API and obeys a line-oriented JSON control protocol on a unix socket.
+
+type sutReq struct {
+	ID     int64           `json:"id"`
+	Op     string          `json:"op"`
+	Name   string          `json:"name,omitempty"`
+	Config json.RawMessage `json:"config,omitempty"`
+	Hosts  []sutHost       `json:"hosts,omitempty"`
+	Point  string          `json:"point,omitempty"`
+	Action *vhook.Action   `json:"action,omitempty"`
+	Prefix string          `json:"prefix,omitempty"`
+	A      int64           `json:"a,omitempty"`
+	B      int64           `json:"b,omitempty"`
+	S      string          `json:"s,omitempty"`
+}
+
+type sutHost struct {
+	Addr   string `json:"addr"`
+	Backup bool   `json:"backup,omitempty"`
+}
+
+type sutResp struct {
+	ID   int64       `json:"id"`
+	Err  string      `json:"err,omitempty"`
+	Data interface{} `json:"data,omitempty"`
+}
+
+type sutState struct {
+	mu    sync.Mutex
+	procs map[string]proc.Proc
+	wmu   sync.Mutex
+	w     *bufio.Writer
+}
+
+func toHosts(hs []sutHost) []*host.Host {
+	out := make([]*host.Host, 0, len(hs))
+	for _, h := range hs {
+		typ := host.TypeMain
+		if h.Backup {
+			typ = host.TypeBackup
+		}
+		out = append(out, host.NewWithType(h.Addr, typ))
+	}
+	return out
+}
+
+func sutMain(args []string) {
+	if len(args) < 1 {
+		fmt.Println("sut: missing control socket")
+		os.Exit(2)
+	}
+	level := os.Getenv("VERIF_SUT_LOGLEVEL")
+	if level == "" {
+		level = "warning"
+	}
+	logger.SetLevel(level)
+	conn, err := net.Dial("unix", args[0])
+	if err != nil {
+		fmt.Println("sut: cannot connect control socket:", err)
+		os.Exit(2)
+	}
+	st := &sutState{procs: map[string]proc.Proc{}, w: bufio.NewWriter(conn)}
+	sc := bufio.NewScanner(conn)
+	sc.Buffer(make([]byte, 1<<20), 64<<20)
+	for sc.Scan() {
+		var req sutReq
+		if err := json.Unmarshal(sc.Bytes(), &req); err != nil {
+			fmt.Println("sut: bad request:", err)
+			continue
+		}
+		if req.Op == "exit" {
+			os.Exit(0)
+		}
+		// every command runs on its own goroutine: a wedged Stop must not wedge the control channel.
+		go func(req sutReq) {
+			data, err := st.handle(&req)
+			resp := sutResp{ID: req.ID, Data: data}
+			if err != nil {
+				resp.Err = err.Error()
+				if resp.Err == "" {
+					resp.Err = "error"
+				}
+			}
+			b, _ := json.Marshal(resp)
+			st.wmu.Lock()
+			st.w.Write(b)
+			st.w.WriteByte('\n')
+			st.w.Flush()
+			st.wmu.Unlock()
+		}(req)
+	}
+	// parent went away
+	os.Exit(0)
+}
+
+func (st *sutState) proc(name string) (proc.Proc, error) {
+	st.mu.Lock()
+	defer st.mu.Unlock()
+	p, ok := st.procs[name]
+	if !ok {
+		return nil, fmt.Errorf("no such proc %q", name)
+	}
+	return p, nil
+}
+
+func (st *sutState) handle(req *sutReq) (interface{}, error) {
+	switch req.Op {
+	case "ping":
+		return "pong", nil
+	case "proc_new":
+		cfg := new(service.Config)
+		if err := cfg.UnmarshalJSON(req.Config); err != nil {
+			return nil, fmt.Errorf("config: %v", err)
+		}
+		p, err := proc.New(req.Name, cfg, toHosts(req.Hosts))
+		if err != nil {
+			return nil, err
+		}
+		st.mu.Lock()
+		st.procs[req.Name] = p
+		st.mu.Unlock()
+		return nil, nil
+	case "proc_start":
+		p, err := st.proc(req.Name)
+		if err != nil {
+			return nil, err
+		}
+		return nil, p.Start()
+	case "proc_stop":
+		p, err := st.proc(req.Name)
+		if err != nil {
+			return nil, err
+		}
+		return nil, p.Stop()
+	case "proc_drain":
+		p, err := st.proc(req.Name)
+		if err != nil {
+			return nil, err
+		}
+		return nil, p.StopListen()
+	case "proc_forget":
+		st.mu.Lock()
+		delete(st.procs, req.Name)
+		st.mu.Unlock()
+		return nil, nil
+	case "proc_addr":
+		p, err := st.proc(req.Name)
+		if err != nil {
+			return nil, err
+		}
+		return p.Address(), nil
+	case "host_add", "host_remove", "host_replace":
+		p, err := st.proc(req.Name)
+		if err != nil {
+			return nil, err
+		}
+		hs := toHosts(req.Hosts)
+		switch req.Op {
+		case "host_add":
+			return nil, p.OnSvcHostAdd(hs)
+		case "host_remove":
+			return nil, p.OnSvcHostRemove(hs)
+		default:
+			return nil, p.OnSvcAllHostReplace(hs)
+		}
+	case "config_update":
+		p, err := st.proc(req.Name)
+		if err != nil {
+			return nil, err
+		}
+		cfg := new(service.Config)
+		if err := cfg.UnmarshalJSON(req.Config); err != nil {
+			return nil, fmt.Errorf("config: %v", err)
+		}
+		return nil, p.OnSvcConfigUpdate(cfg)
+	case "stats":
+		out := map[string]uint64{}
+		for _, c := range stats.Counters() {
+			if strings.HasPrefix(c.Name(), req.Prefix) {
+				out[c.Name()] = c.Value()
+			}
+		}
+		for _, g := range stats.Gauges() {
+			if strings.HasPrefix(g.Name(), req.Prefix) {
+				out["gauge:"+g.Name()] = g.Value()
+			}
+		}
+		return out, nil
+	case "goroutines":
+		var b bytes.Buffer
+		pprof.Lookup("goroutine").WriteTo(&b, 2)
+		return b.String(), nil
+	case "mem":
+		var ms runtime.MemStats
+		runtime.ReadMemStats(&ms)
+		return map[string]uint64{"sys": ms.Sys, "heap_inuse": ms.HeapInuse, "stack_inuse": ms.StackInuse,
+			"goroutines": uint64(runtime.NumGoroutine()), "heap_alloc": ms.HeapAlloc}, nil
+	case "gc":
+		runtime.GC()
+		return nil, nil
+	case "hook_arm":
+		if req.Action == nil {
+			return nil, fmt.Errorf("missing action")
+		}
+		vhook.Arm(req.Point, *req.Action)
+		return nil, nil
+	case "hook_release":
+		vhook.Release(req.Point)
+		return nil, nil
+	case "hook_release_all":
+		vhook.ReleaseAll()
+		return nil, nil
+	case "hook_state":
+		return map[string]int64{"hits": vhook.Hits(req.Point), "parked": vhook.Parked(req.Point), "acted": vhook.Acted(req.Point)}, nil
+	case "hook_snapshot":
+		return vhook.Snapshot(), nil
+	case "redis_timers":
+		sredis.VerifSetSlotsRefreshTimers(time.Duration(req.A)*time.Millisecond, time.Duration(req.B)*time.Millisecond)
+		return nil, nil
+	case "hotkey_intervals":
+		hotkey.VerifSetIntervals(req.A, req.B)
+		return nil, nil
+	case "loglevel":
+		logger.SetLevel(req.S)
+		return nil, nil
+	}
+	return nil, fmt.Errorf("unknown op %q", req.Op)
+}
